@@ -307,7 +307,8 @@ type memConn struct {
 func (c *memConn) Read(b []byte) (int, error) {
 	select {
 	case <-c.closedCh:
-		return 0, net.ErrClosed
+		// what a net.Conn returns after its own Close
+		return 0, &net.OpError{Op: "read", Net: "mem", Err: net.ErrClosed}
 	default:
 	}
 	return c.rd.read(b, c.maxSeg)
@@ -315,7 +316,7 @@ func (c *memConn) Read(b []byte) (int, error) {
 func (c *memConn) Write(b []byte) (int, error) {
 	select {
 	case <-c.closedCh:
-		return 0, net.ErrClosed
+		return 0, &net.OpError{Op: "write", Net: "mem", Err: net.ErrClosed}
 	default:
 	}
 	c.logMu.Lock()
